@@ -56,7 +56,7 @@ def signedCfg (c : Ctx) : Model.ChunkSigned.Cfg :=
 
 def showSignedErr : Model.ChunkSigned.Err → String
   | .sigMismatch => "sigmismatch" | .badDigest => "baddigest" | .invalidFormat => "invalidformat"
-  | .malformed => "malformed" | .badTrailer => "badtrailer"
+  | .malformed => "malformed" | .badTrailer => "badtrailer" | .unexpectedEOF => "unexpectedeof"
 
 def showUnsignedErr : Model.ChunkUnsigned.Err → String
   | .malformed => "malformed" | .unexpectedEOF => "unexpectedeof" | .badDigest => "baddigest"
@@ -74,7 +74,6 @@ def runSpec (c : Ctx) (stream : Bytes) (spec : String) : Option String := do
     pure <| match st with
       | .eof => s!"ok {Bytes.toHexArg out}"
       | .err e => s!"err {showUnsignedErr e}"
-      | .panic => "panic"
       | .nil => "livelock"
       | .fuel => "fuel"
   | _ =>
